@@ -11,6 +11,8 @@ drv_msqueue (properties C01, C02)
 
 script line:   prog 0:push1,pop 1:push2 | sched 0 0 1 1 0 …            (C01)
                prog 0:push1,pop 1:push2 | sched 0 0 1 | solo 1          (C02)
+               stress G=16 n=3000 mode=pairs …                          (C01, real goroutines, oracle only:
+                                                                          answered with "stress not-modelled")
 One schedule entry `t` = one model action of thread `t`: the invocation of its next operation when
 it is idle, `tau t` otherwise (= one csched.Step on the real code).  After the schedule, the
 remaining operations are drained (lowest live thread first).
@@ -186,6 +188,8 @@ def soloRun (c : Cfg) (t : Nat) : Nat → Nat → List String → Cfg × Nat × 
 def soloCap : Nat := 10 * K
 
 def runLine (line : String) : String :=
+  -- real-parallel stress lines are judged by the oracle only: their interleaving is not observable
+  if line.startsWith "stress " then "stress not-modelled" else
   match line.splitOn " | " with
   | progS :: schedS :: rest =>
     match words progS, words schedS with
